@@ -195,6 +195,23 @@ func cmdCheck(args []string) int {
 	os.RemoveAll(cfg.OutDir)
 	tSolve := time.Now()
 	solveAll(all, cfg)
+	// second chance for undecided obligations: fewer workers, longer timeout (a loaded machine
+	// must not turn a slow proof into an alarm)
+	var retry []*Obligation
+	for _, o := range all {
+		if o.Kind != "cover" && (o.Result == "timeout" || o.Result == "unknown") {
+			retry = append(retry, o)
+		}
+	}
+	if len(retry) > 0 && len(retry) <= 40 {
+		cfg2 := *cfg
+		cfg2.Timeout = 6 * timeout
+		if cfg2.Timeout > 180*time.Second {
+			cfg2.Timeout = 180 * time.Second
+		}
+		cfg2.Workers = 4
+		solveAll(retry, &cfg2)
+	}
 	solveS := time.Since(tSolve).Seconds()
 
 	known := loadKnown(filepath.Join(*verif, "known_findings.json"))
